@@ -130,10 +130,13 @@ def applyPadding (mode : Mode) (dir : Dir) (lhs : Nat → K) (nL nR off : Nat) :
 
 variable [DecidableEq K]
 
-/-- Everything `resize_array` refuses, in source order, plus the (unguarded) offset range. -/
+/-- Everything `resize_array` refuses, in source order: the offset range
+(`0 ≤ offset ≤ |n_new - n_orig|` on a resized axis; offsets are naturals here; on an axis
+of unchanged length the offset is ignored), `pad_const ≠ 0` in the adjoint
+direction, then the guards of `_apply_padding`. -/
 def check (mode : Mode) (dir : Dir) (nIn nOut off : Nat) (c : K) : Option Err :=
-  if dir = .adjoint ∧ mode = .constant ∧ c ≠ 0 then some .padConstAdjoint
-  else if off + min nIn nOut > max nIn nOut then some .offset
+  if nIn ≠ nOut ∧ off + min nIn nOut > max nIn nOut then some .offset
+  else if dir = .adjoint ∧ mode = .constant ∧ c ≠ 0 then some .padConstAdjoint
   else if mode = .constant then none
   else match dir with
     | .forward => if nOut > nIn then paddingGuards mode nOut nIn off else none
@@ -238,13 +241,23 @@ def sumBox [Zero K] [Add K] : List Nat → (List Nat → K) → K
 
 variable [Zero K] [Add K] [Sub K] [Mul K] [IntCast K] [DecidableEq K]
 
+/-- The offset range check of `resize_array` runs over all axes before anything else. -/
+def offsetsBad : List Nat → List Nat → List Nat → Bool
+  | nIn :: sIn, nOut :: sOut, off :: offs =>
+    decide (nIn ≠ nOut ∧ off + min nIn nOut > max nIn nOut) || offsetsBad sIn sOut offs
+  | _, _, _ => false
+
 /-- First refusal over the axes (any axis with an inadmissible configuration). -/
-def checkND (mode : Mode) (dir : Dir) (c : K) : List Nat → List Nat → List Nat → Option Err
+def checkAxes (mode : Mode) (dir : Dir) (c : K) : List Nat → List Nat → List Nat → Option Err
   | nIn :: sIn, nOut :: sOut, off :: offs =>
     match check mode dir nIn nOut off c with
     | some e => some e
-    | none => checkND mode dir c sIn sOut offs
+    | none => checkAxes mode dir c sIn sOut offs
   | _, _, _ => none
+
+/-- Refusals of the n-d call in source order: offsets of all axes first, then per axis. -/
+def checkND (mode : Mode) (dir : Dir) (c : K) (sIn sOut offs : List Nat) : Option Err :=
+  if offsetsBad sIn sOut offs then some .offset else checkAxes mode dir c sIn sOut offs
 
 /-- Axes `ax, ax+1, …` one after the other (the loop of `_apply_padding`, each axis acting on
 the result of the previous ones). -/
